@@ -528,3 +528,130 @@ func c18WakeVsUpdate(x *X) {
 func init() {
 	register(&Scenario{Prop: "C18", Name: "c18/wake-vs-update", Quick: []Bound{{1, 0}, {2, 0}}, Thorough: []Bound{{3, 0}}, Body: c18WakeVsUpdate, MaxSteps: 100000, BudgetQ: 20})
 }
+
+// one target does not refuse connections but hangs (its probes never return) while the other one
+// comes up: the waiting callers are still released within two detector periods, and a target that
+// went away is still found dead and used again after it recovers.
+func c18HungProbe(x *X) {
+	s := newCliSys(x, rpc.RoundRobinScheduling, "a", "b")
+	s.rt.up["a"], s.rt.gate["a"] = true, true // a: every round trip hangs
+	ws := spawnWaiters(s, pickForms(x, 2))
+	pre := 1 + x.Choose(2)
+	s.tick(pre)
+	upAt := vt.Elapsed()
+	s.rt.up["b"] = true
+	s.tick(2)
+	for _, w := range ws {
+		if !w.done && !(len(s.rt.userRoutes(0)) > 0) {
+			x.Fail("C18/waiter-not-released/hung-probe", "a %s caller is still waiting two detector ticks after target b became reachable at %v (the probes of target a never return)", cfNames[w.form], upAt)
+		}
+	}
+	for _, r := range s.rt.userRoutes(0) {
+		if r.addr != "b" && r.addr != "a" {
+			x.Fail("C18/routed-to-dead-target/hung-probe", "a released caller was routed to %q", r.addr)
+		}
+	}
+	// b goes away and comes back
+	s.rt.up["b"] = false
+	for i := 0; i < 2; i++ {
+		vs.GoNamed(fmt.Sprintf("prober%d", i), func() { clientCall(s.c, cfCall) })
+		vs.Quiesce()
+		s.tick(1)
+	}
+	s.rt.up["b"] = true
+	s.tick(3)
+	done := false
+	var err error
+	vs.GoNamed("late-caller", func() { err = clientCall(s.c, cfCall); done = true })
+	vs.Quiesce()
+	s.tick(2)
+	if !done {
+		// (it may have been routed to the hanging target a)
+		routedA := false
+		for _, r := range s.rt.userRoutes(0) {
+			if r.addr == "a" && r.thread == "late-caller" {
+				routedA = true
+			}
+		}
+		if !routedA {
+			x.Fail("C18/recovered-target-unused/hung-probe", "target b recovered three detector ticks ago (the probes of target a never return): a call still waits for a live target")
+		}
+	} else if err != nil && err != rpc.ErrDial {
+		x.Fail("C18/recovered-target-unused/hung-probe", "target b recovered three detector ticks ago: a call failed with %v", err)
+	}
+	x.Outcome("pre=%d done=%v err=%v", pre, done, err)
+	s.rt.gate["a"] = false
+	vs.Quiesce()
+	s.close()
+}
+
+// Director callbacks that are slow or call back into the Client: a Director that re-supplies the
+// target list (Update) and declines, and a Director that takes long while another caller's
+// DialTimeout runs out and the Client is closed.
+func c18Director(x *X) {
+	kind := x.Choose(2)
+	s := newCliSys(x, rpc.RoundRobinScheduling, "a", "b")
+	out := ""
+	switch kind {
+	case 0:
+		s.rt.up["a"], s.rt.up["b"] = true, true
+		s.tick(2)
+		s.c.Director = func() string {
+			s.c.Update("a", "b") // (what a discovery hook does)
+			return ""
+		}
+		done := 0
+		for i := 0; i < 2; i++ {
+			vs.GoNamed(fmt.Sprintf("caller%d", i), func() { clientCall(s.c, cfCall); done++ })
+			vs.Quiesce()
+			s.tick(2)
+		}
+		for k := 0; k < 6 && done < 2; k++ {
+			s.tick(1)
+		}
+		if done != 2 {
+			x.Fail("C18/caller-stuck/director-calls-update", "%d of 2 callers returned although both targets are live: the Director hook calls Client.Update and returns \"\"", done)
+		}
+		out = fmt.Sprintf("done=%d", done)
+	case 1:
+		held := true
+		calls := 0
+		s.c.Director = func() string {
+			calls++
+			if calls == 1 {
+				vs.Block("user Director callback is slow", func() bool { return !held })
+			}
+			return ""
+		}
+		ws := spawnWaiters(s, []int{cfCall})
+		vs.Quiesce()
+		start := vt.Elapsed()
+		w2 := spawnWaiters(s, []int{cfCallCtx})
+		for k := 0; k < 7; k++ {
+			s.tick(1)
+		}
+		if !w2[0].done {
+			x.Fail("C18/waits-longer-than-dialtimeout/slow-director", "a caller is still waiting %v after it started (no live target, DialTimeout %v) while another caller's Director hook is slow", vt.Elapsed()-start, s.c.DialTimeout)
+		}
+		closed := false
+		vs.GoNamed("closer", func() { s.c.Close(); closed = true })
+		vs.Quiesce()
+		if !closed {
+			x.Fail("C18/close-blocked/slow-director", "Client.Close does not return while a caller's Director hook is slow")
+		}
+		held = false
+		vs.Quiesce()
+		s.tick(6)
+		if !ws[0].done {
+			x.Fail("C18/caller-stuck/slow-director", "the caller whose Director hook was slow never returned after the Client was closed")
+		}
+		out = fmt.Sprintf("w2=%v closed=%v first=%v", w2[0].done, closed, ws[0].done)
+	}
+	x.Outcome("kind=%d %s", kind, out)
+	s.close()
+}
+
+func init() {
+	register(&Scenario{Prop: "C18", Name: "c18/hung-probe", Quick: []Bound{{0, 0}, {1, 0}}, Thorough: []Bound{{2, 0}}, Body: c18HungProbe, MaxSteps: 100000, BudgetQ: 15})
+	register(&Scenario{Prop: "C18", Name: "c18/director-callbacks", Quick: []Bound{{0, 0}, {1, 0}}, Thorough: []Bound{{2, 0}}, Body: c18Director, MaxSteps: 100000, BudgetQ: 15})
+}
